@@ -179,6 +179,55 @@ func c16Threshold(c *Ctx, p *core.Prog) {
 		}
 	}
 	r.Floor("threshold", n, 5, "appends to ScanResult.Findings")
+	// the threshold may only filter: nothing but building and appending the finding may depend on it
+	ng := 0
+	for _, fn := range p.SrcFuncs("pkg/sql/security") {
+		seq := 0
+		for _, b := range fn.Blocks {
+			iff, ok := b.Instrs[len(b.Instrs)-1].(*ssa.If)
+			if !ok {
+				continue
+			}
+			cond, _ := stripNot(iff.Cond)
+			gc, ok := cond.(*ssa.Call)
+			if !ok || gc.Call.StaticCallee() == nil || gc.Call.StaticCallee().Name() != "shouldInclude" {
+				continue
+			}
+			ng++
+			seq++
+			key := core.FnName(fn) + sprintf("|shouldInclude#%d", seq)
+			bad := ""
+			for _, x := range fn.Blocks {
+				dep := false
+				for _, cd := range core.ControlDeps(x) {
+					if cd.If == iff {
+						dep = true
+					}
+				}
+				if !dep {
+					continue
+				}
+				for _, in := range x.Instrs {
+					switch y := in.(type) {
+					case *ssa.Return:
+						bad = "a return at " + p.Pos(y.Pos()) + " depends on the severity threshold: whatever the function would have scanned afterwards is skipped when the finding is filtered out"
+					case *ssa.Call:
+						if f := y.Call.StaticCallee(); f != nil && f.Signature.Recv() != nil && core.InPkgs(f, "pkg/sql/security") && f.Name() != "shouldInclude" {
+							bad = "the call of " + f.Name() + " at " + p.Pos(y.Pos()) + " depends on the severity threshold of another finding"
+						}
+					}
+				}
+			}
+			if bad == "" {
+				r.OK("threshold", key, p.Pos(iff.Cond.Pos()), "only the construction and append of the finding depend on the threshold")
+			} else {
+				r.Violate("threshold", key, p.Pos(iff.Cond.Pos()), bad)
+			}
+		}
+	}
+	if ng < 5 {
+		r.Fatal("fewer than 5 shouldInclude tests found in the scanner (%d): anchors moved?", ng)
+	}
 }
 
 // severityOf: v is a load of <alloc>.Severity; returns the alloc.
